@@ -207,6 +207,13 @@ def try_to_save_module(hashed_grammar, file_io, module, lines, pickling=True, ca
                 'Tried to save a file to %s, but got permission denied.' % path,
                 Warning
             )
+        except OSError as e:
+            # Same here, e.g. the cache directory was removed in the meantime
+            # or the disk is full.
+            warnings.warn(
+                'Tried to save a file to %s, but got %r.' % (path, e),
+                Warning
+            )
         else:
             _remove_cache_and_update_lock(cache_path=cache_path)
 
